@@ -14,6 +14,7 @@ class Program:
         self.traits = {}
         self.statics = []
         self.fmts = []
+        self.fieldattrs = []
         self.crates = []
         for r in recs:
             k = r["k"]
@@ -29,6 +30,8 @@ class Program:
                 self.statics.append(r)
             elif k == "fmt":
                 self.fmts.append(r)
+            elif k == "fieldattr":
+                self.fieldattrs.append(r)
             elif k == "crate":
                 self.crates.append(r)
         # trait item -> impl fn keys (CHA)
